@@ -87,6 +87,22 @@ func probeStatus(in *Inst, op *Op, t reflect.Type, code int) (int, string) {
 	saved := in.Respond
 	in.Respond = func(c *Call) reflect.Value { return v }
 	req := httptest.NewRequest(op.Method, "http://h.example"+escapeForURL(in.P.BasePath+concretePath(op.Template)), nil)
+	// (a secured operation is probed with a credential for every scheme; whether it is
+	// admitted depends on the authenticators the caller installed)
+	if cs := in.P.Doc.Components; cs != nil && len(in.P.Doc.EffectiveSecurity(op.Spec)) > 0 {
+		q := req.URL.Query()
+		for _, sch := range cs.SecuritySchemes {
+			switch refmodel.SchemeKind(sch) {
+			case "bearer":
+				req.Header.Set("Authorization", "Bearer probe")
+			case "apikey-header":
+				req.Header.Set(sch.Name, "probe")
+			case "apikey-query":
+				q.Set(sch.Name, "probe")
+			}
+		}
+		req.URL.RawQuery = q.Encode()
+	}
 	in.Reset()
 	rec, pan := in.Serve(req)
 	in.Respond = saved
@@ -283,6 +299,11 @@ func checkWritten(p *Pkg, info implInfo, v reflect.Value, raw []byte, rec *Recor
 		fv, ok := headerField(v, name)
 		if !ok {
 			return "header-has-no-field", fmt.Sprintf("the documented header %s has no field in the response type %s: a handler cannot set it", name, v.Type())
+		}
+		// a header the document requires cannot be left out: its field is not an optional one
+		// (deprecated or not - `deprecated` is an annotation)
+		if rh := p.Doc.ResolveHeader(h); rh != nil && rh.Required && isOptionStruct(fv.Type()) && !strings.HasPrefix(fv.Type().Name(), "Nullable") {
+			return "required-header-is-optional", fmt.Sprintf("the header %s is required, but its field in %s is optional (%s): a handler can leave it out", name, v.Type(), fv.Type())
 		}
 		set, vals := FieldValues(fv)
 		got := hdr.Values(name)
